@@ -1084,14 +1084,16 @@ theorem same_labels_same_series (E : Env V) (s : StageK V)
 /-! ## 5. facts regenerated from the source (T) -/
 
 /-- the decisive tests of the Go code are the ones the model mirrors: `min_over_time` replaces on `>`, `max` on
-    `<`, `first_over_time` on an empty bucket; the range aggregations skip buckets outside the array (the vector
+    `<`, `first_over_time` on an empty bucket and on every entry when the rows arrive newest first (`!ctx.OrderASC`),
+    `last_over_time` on an empty bucket and on every entry when they arrive oldest first (`dirFn`); the range aggregations skip buckets outside the array (the vector
     aggregation's own test is not listed: its input timestamps are bucket starts of the same grid); limit 0 passes
     everything; the fingerprint hashes length, name, value; the split tests; the switch cases. The thresholds
     (`optimizerFlush`, `maxSeries`) are parameters of the theorems above, which hold for every value. -/
 theorem gen_facts :
     Gen.InternalPlanner.unwrapCond_min_over_time = "stream.values[idx] > entry.Value || stream.values[idx+1] == 0" ∧
     Gen.InternalPlanner.unwrapCond_max_over_time = "stream.values[idx] < entry.Value || stream.values[idx+1] == 0" ∧
-    Gen.InternalPlanner.unwrapCond_first_over_time = "stream.values[idx+1] == 0" ∧
+    Gen.InternalPlanner.unwrapCond_first_over_time = "stream.values[idx+1] == 0 || !ctx.OrderASC" ∧
+    Gen.InternalPlanner.unwrapCond_last_over_time = "stream.values[idx+1] == 0 || ctx.OrderASC" ∧
     Gen.InternalPlanner.vecCond_min = "stream.values[idx*2] > entry.Value || stream.values[idx*2+1] == 0" ∧
     Gen.InternalPlanner.vecCond_max = "stream.values[idx*2] < entry.Value || stream.values[idx*2+1] == 0" ∧
     Gen.InternalPlanner.lraBounds = "idx < 0 || idx+1 >= int64(len(stream.values))" ∧
@@ -1106,7 +1108,25 @@ theorem gen_facts :
     Gen.InternalPlanner.breakConds = ["n != nil && !reflect.ValueOf(n).IsNil()",
       "ppl.Parser != nil && ((ppl.Parser.Fn == \"json\" && len(ppl.Parser.ParserParams) == 0) || ppl.Parser.Fn == \"logfmt\")",
       "ppl.LineFormat != nil", "ppl.LabelFormat != nil"] :=
-  ⟨rfl, rfl, rfl, rfl, rfl, rfl, rfl, rfl, rfl, rfl, rfl, rfl, rfl, rfl⟩
+  ⟨rfl, rfl, rfl, rfl, rfl, rfl, rfl, rfl, rfl, rfl, rfl, rfl, rfl, rfl, rfl⟩
+
+/-- **no query answers with an empty matrix for lack of a case.** The function names `LRAPlanner.Process` and
+    `UnwrapAggPlanner.Process` admit are exactly the names `addValue` has a case for — the ones the bucket machine counts
+    (`rangeCounts` / `unwrapCounts`, for which `metricPlan_meets_logql` gives the LogQL value); every other name
+    (`stddev_over_time`, `stdvar_over_time`, which ClickHouse computes with `stddevPop` / `varPop`; `sum_over_time`
+    without `| unwrap`, …) is refused with NotSupported, like `stddev` / `stdvar` / `topk` / `quantile_over_time`. -/
+theorem unsupported_functions_refused :
+    Gen.InternalPlanner.lraAdmitted = Gen.InternalPlanner.lraCases ∧
+    Gen.InternalPlanner.unwrapAdmitted = Gen.InternalPlanner.unwrapCases ∧
+    Gen.InternalPlanner.lraRefusal = ["return nil, &shared.NotSupportedError{Msg: l.Func + \" without | unwrap is not supported yet.\"}"] ∧
+    Gen.InternalPlanner.unwrapRefusal = ["return nil, &shared.NotSupportedError{Msg: l.Function + \" over an unwrapped value is not supported yet.\"}"] ∧
+    (∀ (p : Plan V) fn dur, p.agg = some (.range fn, dur) → (p.accepted = rangeCounts fn)) ∧
+    (∀ (p : Plan V) fn dur, p.agg = some (.unwrap fn, dur) → (p.accepted = unwrapCounts fn)) := by
+  refine ⟨rfl, rfl, rfl, rfl, ?_, ?_⟩
+  · intro p fn dur h
+    cases fn <;> simp [Plan.accepted, h, rangeCounts]
+  · intro p fn dur h
+    cases fn <;> simp [Plan.accepted, h, unwrapCounts]
 
 /-- the parameter handling of the parser stage as the source has it now — what `paramFields`, `jsonParams`,
     `aheadsFor`, `setAll`, `logfmtFields`, `parserFn` mirror: `logfmtFields` is filled only when there are parameters,
